@@ -111,7 +111,7 @@ func mkdir() string {
 }
 
 func script(c *Case, dir string, only int) *child.Script {
-	sc := &child.Script{Dir: dir, Probes: []string{"8081|localhost", "8082|localhost", "8083|localhost", "8084|localhost", "8085|localhost" }}
+	sc := &child.Script{Dir: dir, Probes: []string{"8081|localhost", "8082|localhost", "8083|localhost", "8084|localhost", "8085|localhost"}}
 	occupied := false
 	atts := c.Attempts
 	if only >= 0 {
